@@ -21,7 +21,8 @@ RULE = ("Two generated families. (tree) Hypothesis draws operator trees whose le
         "an annotation it was not directly declared with (inferred, or attached by a routine)."
         " Further: annotated structured operators under one combinator incl. congruences (TraitGen.annotated),"
         " indefinite Hermitian inputs and user functions with real / complex coefficients for the unary routines,"
-        " rank-deficient and complex diagonals for svd.")
+        " rank-deficient and complex diagonals for svd."
+        " Round 5: a real-valued Python function is applied through the same algorithm before the complex-valued one.")
 ASSUMPTIONS = [
     "SelfAdjoint: ||M-M^H|| <= 1e-5 max(1,||M||); PSD: additionally lambda_min >= -1e-5 max(1,||M||); Stiefel: ||M^H M - I|| <= 1e-5; Unitary: square and both products",
     "the user's declarations are true by construction of the generator (PD = B B^H + cI, Hermitian = B + B^H, unitary = signed permutations / FFT / Householder with unit vector)",
